@@ -66,6 +66,7 @@ def run(ctx):
         # every buffered statement is selected at some point: the search for the oldest front event passes a candidate over only in
         # favour of one already chosen (= C05.R3)
         _c05.r3(_Renamed(ctx, "C05.R3", "C03.R15"), facts, cfg)
+        _c05.r9_read_pass_exits(ctx, facts, cfg, rule="C03.R16")
         if cfg == "A":
             # a statement made with run-time source metadata is turned into an ordinary Log event on every path of the decoder, whatever
             # its template looks like: no other kind of statement event is dispatched to the sinks (= C12.R9a)
